@@ -194,6 +194,30 @@ static void one_topology(hwloc_topology_t t, const char *what)
   MC.states++;
 }
 
+/* what the document says about support must be what the loaded topology reports (IMPORT_SUPPORT): read off the text of the
+ * document, not through the importer - original and reload both pass through the importer, so a name that it drops is
+ * missing on both sides of the round trip (seeded change C05-support-proc-membind) */
+#include <stddef.h>
+static void support_against_document(hwloc_topology_t t, const char *doc, const char *what)
+{
+  const struct hwloc_topology_support *sp = hwloc_topology_get_support(t);
+#define SUP(sect, field) { #sect "." #field, (const unsigned char *)sp->sect + offsetof(struct hwloc_topology_##sect##_support, field) }
+  struct { const char *name; const unsigned char *byte; } T[] = {
+    SUP(discovery, pu), SUP(discovery, numa), SUP(discovery, numa_memory), SUP(discovery, disallowed_pu), SUP(discovery, disallowed_numa), SUP(discovery, cpukind_efficiency),
+    SUP(cpubind, set_thisproc_cpubind), SUP(cpubind, get_thisproc_cpubind), SUP(cpubind, set_proc_cpubind), SUP(cpubind, get_proc_cpubind), SUP(cpubind, set_thisthread_cpubind), SUP(cpubind, get_thisthread_cpubind),
+    SUP(cpubind, set_thread_cpubind), SUP(cpubind, get_thread_cpubind), SUP(cpubind, get_thisproc_last_cpu_location), SUP(cpubind, get_proc_last_cpu_location), SUP(cpubind, get_thisthread_last_cpu_location),
+    SUP(membind, set_thisproc_membind), SUP(membind, get_thisproc_membind), SUP(membind, set_proc_membind), SUP(membind, get_proc_membind), SUP(membind, set_thisthread_membind), SUP(membind, get_thisthread_membind),
+    SUP(membind, alloc_membind), SUP(membind, set_area_membind), SUP(membind, get_area_membind), SUP(membind, get_area_memlocation), SUP(membind, firsttouch_membind), SUP(membind, bind_membind),
+    SUP(membind, interleave_membind), SUP(membind, weighted_interleave_membind), SUP(membind, nexttouch_membind), SUP(membind, migrate_membind) };
+#undef SUP
+  for (unsigned i = 0; i < sizeof(T) / sizeof(T[0]); i++) {
+    char pat[96]; snprintf(pat, sizeof(pat), "name=\"%s\"", T[i].name);
+    int in_doc = strstr(doc, pat) != NULL;
+    if (in_doc != (*T[i].byte != 0)) mc_violation("c05.support.document", "%s :: the document %s support %s, the loaded topology reports %u", what, in_doc ? "lists" : "does not list", T[i].name, *T[i].byte);
+    mc_count("support_names_checked", 1);
+  }
+}
+
 static char *hist_text(const struct hist *h) { static struct sb b; if (!b.s) sb_init(&b); sb_reset(&b); hist_print(&b, h); return b.s; }
 
 int main(int argc, char **argv)
@@ -214,6 +238,7 @@ int main(int argc, char **argv)
       hwloc_topology_t t = NULL;
       if (MC_TRY(60000)) { univ_load(&t, s, &c); mc_try_end(); }
       if (mc_report_faults("load") || !t) continue;
+      if (cfg == 1 && s->kind == USRC_XMLFILE && strstr(s->name, "support")) { int dl = 0; char *doc = univ_read_file(s->text, &dl); if (doc) { support_against_document(t, doc, s->name); free(doc); } }
       one_topology(t, s->name);
       hwloc_topology_destroy(t);
     }
